@@ -17,6 +17,7 @@ type Point struct {
 	Tagged   bool // the server answered with the command's tagged completion
 	Batch    int
 	SentMore bool // the client went on sending the payload / continuation line
+	Loose    bool // the framing was already undefined when this point was reached
 }
 
 // Batch is the output collected at one quiescence point.
@@ -58,20 +59,11 @@ func (w *Worker) Play(st *Stream) *Result {
 		// the pipe can hold 100 MiB
 		c.P.ReleaseOutput()
 	}()
-	big := false
-	for _, cmd := range st.Cmds {
-		for _, ch := range cmd.Chunks {
-			if ch.Lit != nil && ch.Lit.Announce > 1<<20 {
-				big = true
-			}
-		}
-	}
 	if c.Sess == nil {
 		res.EngineErr = "no session after dial"
 		res.End = c.Finish(false)
 		return res
 	}
-	c.Sess.BigAppend = big
 	// state set-up
 	setup := []string{}
 	if st.Start >= StAuth {
@@ -108,12 +100,18 @@ func (w *Worker) Play(st *Stream) *Result {
 	}
 	// answer classifies the last batch at a wait point of command tag
 	answer := func(b *Batch, tag string) (plus, tagged bool) {
-		if n := len(b.Resps); n > 0 && b.Resps[n-1].Tag == "+" {
-			plus = true
-		}
+		// a continuation request counts when nothing but untagged data follows it (the idle
+		// goroutine's updates come after "+ idling")
 		for _, r := range b.Resps {
-			if r.Tag == tag {
-				tagged = true
+			switch r.Tag {
+			case "+":
+				plus = true
+			case "*":
+			default:
+				plus = false
+				if r.Tag == tag {
+					tagged = true
+				}
 			}
 		}
 		return
@@ -139,7 +137,7 @@ cmds:
 				if l.Sync {
 					b := flush("sync-literal-header", true)
 					plus, tagged := answer(b, cmd.Tag)
-					pt := Point{Cmd: ci, Kind: "sync-literal", Lit: l, Plus: plus, Tagged: tagged, Batch: len(res.Batches) - 1}
+					pt := Point{Cmd: ci, Kind: "sync-literal", Lit: l, Plus: plus, Tagged: tagged, Batch: len(res.Batches) - 1, Loose: res.Loose >= 0}
 					if c.Closed || c.Hang != "" {
 						res.Points = append(res.Points, pt)
 						if tagged {
@@ -204,7 +202,7 @@ cmds:
 			}
 			b := flush(after, true)
 			plus, tagged := answer(b, cmd.Tag)
-			pt := Point{Cmd: ci, Kind: kind, Plus: plus, Tagged: tagged, Batch: len(res.Batches) - 1}
+			pt := Point{Cmd: ci, Kind: kind, Plus: plus, Tagged: tagged, Batch: len(res.Batches) - 1, Loose: res.Loose >= 0}
 			res.Expected = append(res.Expected, cmd.Tag)
 			if c.Closed || c.Hang != "" {
 				if !tagged {
